@@ -396,7 +396,12 @@ def paste_paths(
             # In case one is None, the other will be picked.
             # Note that now there is a chance of truncating the path while
             # pasting!
-            maxlen = max(path_back.maxlen, path_forw.maxlen)
+            if path_back.maxlen is None:
+                maxlen = path_forw.maxlen
+            elif path_forw.maxlen is None:
+                maxlen = path_back.maxlen
+            else:
+                maxlen = max(path_back.maxlen, path_forw.maxlen)
             msg = f"Unequal length: Using {maxlen} for the new path!"
             logger.warning(msg)
     time_origin = path_back.time_origin - path_back.length + 1
